@@ -46,7 +46,7 @@ func init() {
 			return []runner.Phase{
 				{Name: "attempt-accounting", Variant: "race", Cases: n / 100, Run: c13accounting, CaseTimeout: 120 * time.Second, Required: []string{"attempts_recorded_concurrently"}},
 				{Name: "scenarios", Variant: "race", Cases: n, Run: c13case, CaseTimeout: 120 * time.Second,
-					Required: []string{"retry_same_host", "retry_next_host", "rethrow_or_ignore", "non_idempotent", "speculative", "ctx_cancelled", "budget_exhausted", "batches", "host_down_while_in_flight", "batch_reused_after_entries_changed", "speculative_batch_executions_seen", "sessions_with_cluster_retry_policy", "ctx_cancelled_between_attempts"}},
+					Required: []string{"retry_same_host", "retry_next_host", "rethrow_or_ignore", "non_idempotent", "speculative", "ctx_cancelled", "budget_exhausted", "batches", "host_down_while_in_flight", "batch_reused_after_entries_changed", "speculative_batch_executions_seen", "sessions_with_cluster_retry_policy", "ctx_cancelled_between_attempts", "executions_without_observer", "downgrading_policy_final_errors"}},
 			}
 		},
 	})
@@ -188,15 +188,15 @@ type c13arrival struct {
 }
 
 type c13nodeState struct {
-	mu        sync.Mutex
-	script    map[string][]string // token -> outcomes in order of global arrival
-	arrivals  map[string][]*c13arrival
-	seq       int64
-	cancelAt  map[string]int // token -> cancel the context at this arrival index (0-based), -1 none
-	cancels   map[string]context.CancelFunc
-	cancelSeq map[string]int64
-	sess      *gocql.Session
-	hostDowns int64
+	mu          sync.Mutex
+	script      map[string][]string // token -> outcomes in order of global arrival
+	arrivals    map[string][]*c13arrival
+	seq         int64
+	cancelAt    map[string]int // token -> cancel the context at this arrival index (0-based), -1 none
+	cancels     map[string]context.CancelFunc
+	cancelSeq   map[string]int64
+	sess        *gocql.Session
+	hostDowns   int64
 	cancelAfter map[string]bool      // cancel a moment after the failing answer was sent (between attempts) instead of before it
 	cancelT     map[string]time.Time // when cancel() had returned
 }
@@ -325,7 +325,7 @@ func (ns *c13nodeState) handler(idx int) fakenode.Handler {
 	}
 }
 
-var c13failKinds = []string{"unavailable(alive=1)", "unavailable(alive=0)", "read-timeout", "write-timeout(SIMPLE,1)", "write-timeout(SIMPLE,0)", "write-timeout(UNLOGGED_BATCH,0)", "write-timeout(CAS,0)", "overloaded", "server-error", "no-answer"}
+var c13failKinds = []string{"unavailable(alive=1)", "unavailable(alive=0)", "read-timeout", "write-timeout(SIMPLE,1)", "write-timeout(SIMPLE,0)", "write-timeout(UNLOGGED_BATCH,0)", "write-timeout(CAS,0)", "write-timeout(BATCH_LOG,0)", "write-timeout(VIEW,1)", "write-timeout(CDC,0)", "write-timeout(COUNTER,1)", "write-timeout(BATCH,1)", "overloaded", "server-error", "no-answer"}
 
 func c13case(c *runner.Ctx, i int) {
 	r := c.Rng
@@ -437,6 +437,11 @@ func c13case(c *runner.Ctx, i int) {
 		}
 		ns.mu.Unlock()
 		obs := &c13observer{}
+		// nobody observes this execution (attempts are counted for the policies all the same)
+		noObs := r.Intn(4) == 0
+		if noObs {
+			c.Add("executions_without_observer", 1)
+		}
 		var execErr error
 		lastArrivals := -1
 		stmt := "RETRY " + token
@@ -452,10 +457,15 @@ func c13case(c *runner.Ctx, i int) {
 			if sp != nil {
 				b.SpeculativeExecutionPolicy(sp)
 			}
-			b.Observer(obs)
+			if !noObs {
+				b.Observer(obs)
+			}
 			c.Guard("ExecuteBatch", func() { execErr = sess.ExecuteBatch(b) })
 		} else {
-			q := sess.Query(stmt).WithContext(ctx).Idempotent(idem).Observer(obs)
+			q := sess.Query(stmt).WithContext(ctx).Idempotent(idem)
+			if !noObs {
+				q.Observer(obs)
+			}
 			if rp != nil {
 				q.RetryPolicy(rp)
 			} else if clusterPolicy {
@@ -634,6 +644,26 @@ func c13case(c *runner.Ctx, i int) {
 						break
 					}
 				}
+				// downgrading policy, as documented: of the write timeouts only an UNLOGGED_BATCH one is retried, and an
+				// Unavailable only if a replica is alive - whatever else the policy makes of such an error, it is not
+				// another attempt (decided on the errors the policy itself was shown)
+				if _, ok := rp.inner.(*gocql.DowngradingConsistencyRetryPolicy); ok {
+					rp.mu.Lock()
+					kinds := append([]string{}, rp.kinds...)
+					rp.mu.Unlock()
+					for x, k := range kinds {
+						if x >= len(types) {
+							break
+						}
+						if (strings.HasPrefix(k, "write-timeout(") && !strings.HasPrefix(k, "write-timeout(UNLOGGED_BATCH")) || k == "unavailable(alive=0)" {
+							c.Add("downgrading_policy_final_errors", 1)
+							if types[x] == gocql.Retry || types[x] == gocql.RetryNextHost {
+								fail("downgrading:retried-after:"+strings.SplitN(k, ",", 2)[0], fmt.Sprintf("the downgrading-consistency policy answered %v to %s, which it documents as not retried", types[x], k))
+								break
+							}
+						}
+					}
+				}
 				// downgrading policy: retry k carries consistency level k-1 of the list
 				if d, ok := rp.inner.(*gocql.DowngradingConsistencyRetryPolicy); ok && !batch && len(att) == len(arr) {
 					for x := 1; x < len(arr) && x-1 < len(d.ConsistencyLevelsToTry); x++ {
@@ -650,7 +680,7 @@ func c13case(c *runner.Ctx, i int) {
 				ns.mu.Lock()
 				ct, has := ns.cancelT[token]
 				ns.mu.Unlock()
-				if has {
+				if has && !noObs {
 					// attempts the driver itself records as started after cancel() had returned cannot have put a request
 					// on the wire: at most as many requests reach servers as attempts were started up to then
 					allowed := 0
